@@ -533,6 +533,7 @@ func TestC12Resume(t *testing.T) {
 		res, runErr := scen.RunChild(sc, 120*time.Second)
 		verdict, err := judgeResume(sc, res, runErr)
 		cls := []string{"resume", "resume-verdict:" + verdict}
+		cls = append(cls, "resume:configured-via:"+sc.Resume.Via)
 		if sc.Resume.Salt < 0 {
 			cls = append(cls, "resume:negative-salt")
 		}
